@@ -22,6 +22,7 @@ type c16Case struct {
 	List []string        `json:"xml_list,omitempty"`
 	Enc  string          `json:"encoder,omitempty"`
 	Pol  int             `json:"order_policy"`
+	Via  string          `json:"mapseq_rebuilt_via,omitempty"` // "json" | "json-number": the MapSeq went through Json() and NewMapJson (with JsonUseNumber)
 }
 
 func init() {
@@ -30,7 +31,7 @@ func init() {
 		json.Unmarshal(cas, &k)
 		resetOptions()
 		mxj.XMLEscapeChars(true)
-		src := c16Source{kind: k.Kind, xml: k.Xml, js: string(k.Json), list: k.List}
+		src := c16Source{kind: k.Kind, xml: k.Xml, js: string(k.Json), list: k.List, via: k.Via}
 		if k.Kind == "odd-root" {
 			c16OddRoot(c, string(k.Json))
 		} else if k.Kind == "sinks" {
@@ -49,10 +50,11 @@ type c16Source struct {
 	xml  string
 	js   string
 	list []string
+	via  string
 }
 
 func (s c16Source) cas() c16Case {
-	k := c16Case{Kind: s.kind, Xml: s.xml, List: s.list, Pol: rt.OrderPolicy}
+	k := c16Case{Kind: s.kind, Xml: s.xml, List: s.list, Pol: rt.OrderPolicy, Via: s.via}
 	if s.js != "" {
 		k.Json = json.RawMessage(s.js)
 	}
@@ -213,6 +215,21 @@ func c16Encoders(c *Ctx, src c16Source, viol func(api, clause, detail string)) [
 			m, err := mxj.NewMapXmlSeq([]byte(src.xml))
 			if err != nil {
 				panic("c16: source does not decode: " + err.Error())
+			}
+			if src.via != "" {
+				// the same MapSeq rebuilt from its JSON form (sequence numbers come back as float64, or as
+				// json.Number under JsonUseNumber): "however they were built"
+				j, jerr := mxj.Map(m).Json()
+				if jerr != nil {
+					panic("c16: " + jerr.Error())
+				}
+				mxj.JsonUseNumber = src.via == "json-number"
+				m2, derr := mxj.NewMapJson(j)
+				mxj.JsonUseNumber = false
+				if derr != nil {
+					panic("c16: " + derr.Error())
+				}
+				return mxj.MapSeq(m2)
 			}
 			return m
 		}
@@ -806,6 +823,9 @@ func c16Run(c *Ctx) {
 		c.S.States++
 		c.S.Evaluations++
 		c16Explore(c, c16Source{kind: "mapseq", xml: d}, 1, false)
+		c16Explore(c, c16Source{kind: "mapseq", xml: d, via: "json"}, 1, false)
+		c16Explore(c, c16Source{kind: "mapseq", xml: d, via: "json-number"}, 1, false)
+		c.S.States += 2
 	}
 	// keys that differ only in case, by a prefix, or by a number read lexically (ascending byte order is the
 	// documented order for attributes and child elements)
